@@ -1,6 +1,40 @@
 import Rbp.Proofs.Wire
+import Rbp.Proofs.Block
+/-!
+# C01 — csvdump reproduces every on-disk block, tx, input and output field exactly
+-/
 namespace Rbp.Props.C01
 open W
+
+/-- the transaction reader consumes exactly the encoding of any well-formed transaction — legacy or segwit,
+    marker and every count/length in any CompactSize width, witness stacks skipped iff the flag is odd —
+    and yields its fields (the parser is a left inverse of the on-disk encoder; the rest of the stream is untouched) -/
 theorem readTx_encTx (t : Tx) (h : t.ok) (rest : Bytes) : readTx (t.enc ++ rest) = some (t.toR, rest) :=
   readTx_enc t h rest
+
+/-- `to_bytes` of the parsed transaction is the witness-stripped serialisation, so txid = H(witness-stripped bytes);
+    non-minimal count encodings are replayed byte for byte -/
+theorem txid_preimage_is_stripped (t : Tx) : t.toR.toBytes = t.encStripped :=
+  toBytes_stripped t
+
+/-- the block reader consumes exactly the encoding of a well-formed block and returns its header and transactions -/
+theorem readBlock_encBlock (thr : Option Nat) (b : Block) (hk : b.ok thr) (rest : Bytes) :
+    Aux.readBlockCoin thr (b.enc ++ rest) = some (b.toR, rest) :=
+  readBlockCoin_enc thr b hk rest
+
+/-- the 80 header bytes that are hashed for the block hash are the 80 bytes on disk -/
+theorem header_bytes (h : Header) (hk : h.ok) : h.toR.toBytes = h.enc ∧ h.enc.length = 80 :=
+  ⟨header_toBytes h, header_enc_length h hk⟩
+
+/-- CompactSize: every width (1/3/5/9 bytes) decodes to its value and keeps its raw bytes -/
+theorem compactSize_roundtrip (c : Count) (h : c.ok) (rest : Bytes) :
+    readVarUint (c.enc ++ rest) = some (⟨c.v, c.enc⟩, rest) :=
+  readVarUint_enc c h rest
+
+/-- non-vacuity at the width boundaries: 0xfc (1 byte), 0xfd and 0xffff (3 bytes), 0x10000 (5 bytes), 2^32 (9 bytes),
+    and a non-minimal 9-byte encoding of 1 -/
+example : (Count.mk .w1 0xfc).ok ∧ (Count.mk .w3 0xfd).ok ∧ (Count.mk .w3 0xffff).ok ∧ (Count.mk .w5 0x10000).ok ∧
+    (Count.mk .w9 (2^32)).ok ∧ (Count.mk .w9 1).ok := by
+  simp [Count.ok]
+
 end Rbp.Props.C01
